@@ -30,6 +30,16 @@ Theorem c06_translated_override_lookup : forall d (l : list (value * value * str
   calls macro_fns (S d) "get_entry_point" [VArr (map ov_val l); kind_v ty] (CVal (found (find (of_kind ty) l))).
 Proof. exact translated_get_entry_point. Qed.
 
+(* What a default entry point consists of, for each of the six kinds, with and without generic arguments of the
+   `entry_points` attribute, with and without the replies feature: its message parameter is the contract's message
+   accessor of THAT kind (the chain's `Reply` for reply), and its body forwards to `msg.dispatch` of a fresh contract with
+   the context values of THAT kind (reply: the generated reply dispatch, or the legacy handler under its own name). *)
+Theorem c06_translated_default_entry_point_forwards_its_own_kind :
+  exists T, forall k name error reply (gens : list value) (replies : bool), In k six_kinds ->
+    calls EPD 3 "EntryPoints::emit_default_entry_point" [epd_self name error (VArr gens) reply replies; kind_v k]
+      (CVal (default_entry_point_spec T k name error reply gens replies)).
+Proof. exact translated_default_entry_point. Qed.
+
 (* concrete runs: sudo and migrate overridden, a migrate and a reply handler declared *)
 Example c06_translated_example :
   match call (EPG none none none (some (VStr "ov_sudo")) (some (VStr "ov_migrate")) none true) 3 200 "EntryPoints::emit"
@@ -46,3 +56,4 @@ Proof. vm_compute. split; reflexivity. Qed.
 
 Print Assumptions c06_translated_entry_point_set.
 Print Assumptions c06_translated_override_lookup.
+Print Assumptions c06_translated_default_entry_point_forwards_its_own_kind.
